@@ -28,6 +28,20 @@ type SessionState struct {
 	createdAt        time.Time           // Session创建时间
 }
 
+// clone 返回会话状态的独立副本（主密钥单独拷贝），
+// 使缓存内部持有的对象不与调用方或其它缓存项共享。
+func (s *SessionState) clone() *SessionState {
+	if s == nil {
+		return nil
+	}
+	c := *s
+	if s.masterSecret != nil {
+		c.masterSecret = make([]byte, len(s.masterSecret))
+		copy(c.masterSecret, s.masterSecret)
+	}
+	return &c
+}
+
 // SessionCache 会话缓存器接口，用于存储和检索会话状态。
 // 实现必须支持多 goroutine 并发访问。
 //
@@ -80,6 +94,9 @@ func (c *lruSessionCache) Put(sessionKey string, cs *SessionState) {
 	c.Lock()
 	defer c.Unlock()
 
+	// 缓存只保存私有副本：淘汰时置零主密钥不会影响调用方或其它键下的会话
+	cs = cs.clone()
+
 	if elem, ok := c.m[sessionKey]; ok {
 		if cs == nil {
 			c.q.Remove(elem)
@@ -89,6 +106,11 @@ func (c *lruSessionCache) Put(sessionKey string, cs *SessionState) {
 			entry.state = cs
 			c.q.MoveToFront(elem)
 		}
+		return
+	}
+
+	if cs == nil {
+		// 删除不存在的键：无操作
 		return
 	}
 
@@ -123,12 +145,12 @@ func (c *lruSessionCache) Get(sessionKey string) (*SessionState, bool) {
 		if elem == nil {
 			return nil, false
 		}
-		return elem.Value.(*lruSessionCacheEntry).state, true
+		return elem.Value.(*lruSessionCacheEntry).state.clone(), true
 	}
 
 	if elem, ok := c.m[sessionKey]; ok {
 		c.q.MoveToFront(elem)
-		return elem.Value.(*lruSessionCacheEntry).state, true
+		return elem.Value.(*lruSessionCacheEntry).state.clone(), true
 	}
 	return nil, false
 }
